@@ -35,6 +35,8 @@ CODE_NAMES = ["x.libsonnet", "y.libsonnet", "é.libsonnet"]
 BIN_NAME = "d.bin"
 BIN_SAMPLES = [b"", b"plain", b"ab\xff\xc3\xa9\xe2\x82", b"\xf0\x9f\x98\x80\xed\xa0\x80z", b"\xc0\x80\x00\x7f",
                b"\xe2\x82\xac\xf4\x90\x80\x80", b"\xef\xbb\xbfbom\r\n", bytes(range(120, 140))]
+# (the BOM-leading sample doubles as a regression case: `import` of such a file used to panic while the
+#  lexer error was rendered; fixed in /repo by the lead, commit dc96422)
 
 
 # ---------------------------------------------------------------- std::path in Python (independent copy)
@@ -85,13 +87,22 @@ def gen_spec(rng, can_chmod):
     names = rng.sample(CODE_NAMES, rng.choice([1, 2, 2, 3]))
     lib_dirs = ["w", "w/sub", "j1", "j2", "j3", "j1/sub", "j2/sub"]
 
+    jpool = ["j1", "j2", "j3", "j1", "j2", "j3", "w/sub", "nodir"]
+    js = []
+    for j in rng.sample(jpool, rng.choice([1, 2, 2, 3, 3, 3])):
+        if j not in js:
+            js.append(j)
+    jdirs = [j for j in js]
+    spec["jset"] = [rng.choice([T_MARK + "/" + j, "../" + j, "../" + j + "/"]) for j in js]
+
     def spellings(name, from_dir):
         """An import string for `name` used by a file in `from_dir`: mostly one that resolves."""
         r = rng.random()
         locs = [l for l in spec["files"] if l.endswith("/" + name)]
-        if r < 0.45 or not locs:
+        plain_ok = any((d + "/" + name) in spec["files"] for d in [from_dir] + jdirs)
+        if (r < 0.45 and plain_ok) or not locs:
             return name                                  # depends on the importer's directory and the -J order
-        if r < 0.92:
+        if r < 0.97:
             loc = rng.choice(locs)
             k = rng.random()
             if k < 0.25:
@@ -150,8 +161,10 @@ def gen_spec(rng, can_chmod):
         nops = rng.choice([0, 0, 0, 1, 1, 2])
         for _ in range(nops):
             r = rng.random()
-            if r < 0.7:
-                spec["files"][loc]["ops"].append(["c", spellings(rng.choice(names), d)])
+            rank = names.index(os.path.basename(loc))
+            later = names[rank + 1:] if rng.random() < 0.9 else names      # mostly acyclic; sometimes a cycle
+            if r < 0.7 and later:
+                spec["files"][loc]["ops"].append(["c", spellings(rng.choice(later), d)])
             elif r < 0.85:
                 spec["files"][loc]["ops"].append(["s", spellings(BIN_NAME, d)])
             else:
@@ -166,13 +179,13 @@ def gen_spec(rng, can_chmod):
             rops.append(["s", spellings(rng.choice([BIN_NAME, BIN_NAME, rng.choice(names)]), "w")])
         elif r < 0.84:
             rops.append(["b", spellings(BIN_NAME, "w")])
-        elif r < 0.92:
+        elif r < 0.95:
             rops.append(["c", "lnx.libsonnet" if "w/lnx.libsonnet" in spec["links"] else rng.choice(names)])
-        elif r < 0.94:
-            rops.append([rng.choice("csb"), "missing.libsonnet"])
         elif r < 0.96:
+            rops.append([rng.choice("csb"), "missing.libsonnet"])
+        elif r < 0.97:
             rops.append([rng.choice("csb"), rng.choice(["sub", "../j1", T_MARK + "/j2", "lnd"])])   # a directory
-        elif r < 0.975:
+        elif r < 0.98:
             rops.append(["c", BIN_NAME])                                                    # not Jsonnet
         elif r < 0.99:
             rops.append([rng.choice("csb"), "loop.libsonnet"])
@@ -181,12 +194,6 @@ def gen_spec(rng, can_chmod):
     spec["files"]["w/root.jsonnet"] = {"kind": "node", "id": "root", "ops": rops}
     spec["root"] = rng.choice(["root.jsonnet", "root.jsonnet", "./root.jsonnet", T_MARK + "/w/root.jsonnet",
                                "sub/../root.jsonnet", "../w/root.jsonnet"])
-    jpool = ["j1", "j2", "j3", "j1", "j2", "j3", "w/sub", "nodir"]
-    js = []
-    for j in rng.sample(jpool, rng.choice([1, 2, 2, 3, 3, 3])):
-        if j not in js:
-            js.append(j)
-    spec["jset"] = [rng.choice([T_MARK + "/" + j, "../" + j, "../" + j + "/"]) for j in js]
     return spec
 
 
@@ -571,7 +578,9 @@ def run(rep):
         results = []
         for i, (sp, jl) in enumerate(work):
             results.append(run_case(rep, base, sp, jl, i))
+        rep.extra["t_runs_s"] = round(__import__("time").time() - rep.t0, 1)
         mo = vlib.model([r["line"] for r in results])
+        rep.extra["t_model_s"] = round(__import__("time").time() - rep.t0, 1)
         for r, m in zip(results, mo):
             key = json.dumps([r["spec"], r["jl"]], sort_keys=True)
             replay = {"spec": r["spec"], "jl": r["jl"]}
